@@ -51,6 +51,7 @@ impl Resolver {
                 "SYM" => Denom::Sym,
                 "ERG" => Denom::Erg,
                 "NEWCUSTOM" => Denom::NewCustom,
+                "LIQ:MEL/SYM" => melstructs::PoolKey::new(Denom::Mel, Denom::Sym).liq_token_denom(),
                 _ => panic!("bad denom {s}"),
             });
         }
@@ -234,6 +235,7 @@ pub fn denom_json(d: &Denom) -> J {
         Denom::Sym => json!("SYM"),
         Denom::Erg => json!("ERG"),
         Denom::NewCustom => json!("NEWCUSTOM"),
+        Denom::Custom(_) if *d == melstructs::PoolKey::new(Denom::Mel, Denom::Sym).liq_token_denom() => json!("LIQ:MEL/SYM"),
         Denom::Custom(h) => json!({"custom": hex::encode(h.0 .0)}),
     }
 }
